@@ -84,6 +84,34 @@ func run(cfg lib.Cfg) error {
 		sc.Acts = append(sc.Acts, ts.Act{Do: "drain"})
 		judge(sc, "corpus-shared-client-filters")
 	}
+	// corpus: ONE integration listed on TWO sources (two tasks, one table, one declaration) with
+	// a non-indexed event input and a reference lookup on an earlier input.  The chains of
+	// the two sources carry different values at the same positions.  One task's insert is
+	// held at its first reference lookup (between decoding a log and reading the decoded
+	// values) while the other task's whole step runs; then the roles are swapped.
+	for v := 0; v < 3; v++ {
+		sc := &ts.Scenario{Name: fmt.Sprintf("corpus-one-integration-two-sources-%d", v), Seed: uint64(85 + v), Head: 9, SnapEvery: true,
+			Gen: ts.GenOpts{MaxTxs: 2, MaxLogs: 4, Created: true, EmptyProb: 0},
+			Srcs: []ts.SrcSpec{{Name: "alt", ChainID: 10, Batch: 3, Conc: 1, URL: "http://alt.invalid"},
+				{Name: "main", ChainID: 1, Batch: 3, Conc: 1, URL: "http://main.invalid"}},
+			IGs: []ts.IGSpec{
+				{Name: "a-dep", Shape: "dep", Table: "d1", Ref: "r-one", RefLo: 1, Sources: []ts.SrcRef{{Name: "alt", Start: 1}, {Name: "main", Start: 1}}},
+				{Name: "r-one", Shape: "created", Table: "r1", Sources: []ts.SrcRef{{Name: "alt", Start: 1}, {Name: "main", Start: 1}}},
+			}}
+		// tasks: 1 = a-dep@alt, 2 = a-dep@main, 3 = r-one@alt, 4 = r-one@main; the references run ahead
+		for k := 0; k < 3; k++ {
+			sc.Acts = append(sc.Acts, ts.Act{Do: "step", Tid: 3}, ts.Act{Do: "step", Tid: 4})
+		}
+		for k := 0; k < 3; k++ {
+			a, b := 1, 2
+			if (k+v)%2 == 1 {
+				a, b = 2, 1
+			}
+			sc.Acts = append(sc.Acts, ts.Act{Do: "advuntil", Tid: a, Call: "QRef"}, ts.Act{Do: "step", Tid: b}, ts.Act{Do: "drain"})
+		}
+		sc.Acts = append(sc.Acts, ts.Act{Do: "step", Tid: 1}, ts.Act{Do: "step", Tid: 2})
+		judge(sc, "corpus-one-integration-two-sources")
+	}
 	n := 30
 	if cfg.Thorough() {
 		n = 1500
